@@ -27,7 +27,22 @@ ASSUMPTIONS = ['logdet: det(A0) > 0 is assumed; its zeroth coefficient (sum of l
 
 
 def operand(ctx, algopy, kind, name, shape, D, P, nonsing=False):
-    """returns (object, coefficient list accessor p -> [c_0..c_{D-1}] arrays)"""
+    """returns (object, coefficient list accessor p -> [c_0..c_{D-1}] arrays); kinds U / N are a
+    real polynomial / constant, C / K their complex counterparts"""
+    if kind in ('C', 'K'):
+        full = ((D, P) + shape) if kind == 'C' else shape
+        X = np.empty(full, dtype=object)
+        for idx in np.ndindex(*full):
+            X[idx] = ctx.cvar('%s%s' % (name, list(idx)))
+        if ctx.mode == 'sym':
+            obj = npx.sarr(X, complex)
+        else:
+            obj = np.array(X.tolist(), dtype=complex).reshape(full)
+        if kind == 'C':
+            return algopy.UTPM(obj), (lambda p: [X[d, p] for d in range(D)]), X
+        zero = np.zeros(shape, dtype=object)
+        zero[...] = 0.0 if ctx.mode == 'float' else S.const(0)
+        return obj, (lambda p: [X] + [zero] * (D - 1)), X
     if kind == 'U':
         X = V(ctx, name, (D, P) + shape)
         return mk_utpm(ctx, algopy, X), (lambda p: [X[d, p] for d in range(D)]), X
@@ -86,7 +101,13 @@ def h_trace(ctx, n, D, P, m=None):
 
 def _nonsingular(ctx, A0):
     n = A0.shape[0]
-    ctx.assume(_leibniz(A0) != 0)
+    det = _leibniz(A0)
+    if isinstance(det, S.SymC):
+        ctx.assume(det.re * det.re + det.im * det.im != 0)
+    elif isinstance(det, complex):
+        ctx.assume(abs(det) > 1e-3)
+    else:
+        ctx.assume(det != 0)
 
 
 def h_inv(ctx, n, D, P):
@@ -110,7 +131,7 @@ def h_solve(ctx, n, k, kinds, D, P):
     algopy = symx.load_algopy()
     a, ac, A = operand(ctx, algopy, kinds[0], 'A', (n, n), D, P)
     b, bc, B = operand(ctx, algopy, kinds[1], 'B', (n, k), D, P)
-    if kinds[0] == 'U':
+    if kinds[0] in ('U', 'C'):
         for p in range(P):
             _nonsingular(ctx, A[0, p])
     else:
@@ -220,6 +241,34 @@ def h_det(ctx, n, D, P, fn='det', scale=None):
     ctx.eq(plain(A.data), Xin, 'operand unchanged')
 
 
+def h_complex_lu(ctx, n, D, P):
+    """det and the LU factorisations of a complex matrix polynomial (float-decided: the pivoting
+    model of the symbolic layer compares real magnitudes only)"""
+    algopy = symx.load_algopy()
+    X = np.empty((D, P, n, n), dtype=object if ctx.mode == 'sym' else complex)
+    for idx in np.ndindex(*X.shape):
+        X[idx] = ctx.cvar('A%s' % list(idx))
+    if ctx.mode == 'sym':
+        ctx.fact(True, 'complex pivoting: decided on the float build')
+        ctx.eq(S.const(0), S.const(0), 'det complex')
+        return
+    for p in range(P):
+        ctx.assume(abs(_leibniz(X[0, p])) > 1e-2)
+    A = algopy.UTPM(X.copy())
+    try:
+        z = algopy.det(A)
+        PIV, L, U = algopy.UTPM.lu2(A)
+    except Exception as e:
+        ctx.fact(False, 'det / lu2 of a complex matrix polynomial raised %s: %s' % (type(e).__name__, str(e)[:80]))
+        return
+    for p in range(P):
+        ds = det_series(coefs(X, p), D)
+        for d in range(D):
+            ctx.eq(z.data[d, p], ds[d], 'det order %d dir %d (complex)' % (d, p))
+    W = algopy.UTPM.piv2mat(PIV)
+    ctx.eq(algopy.dot(W, algopy.dot(L, U)).data, X, 'P L U == A (complex)')
+
+
 def h_expm(ctx, n, D, P):
     algopy = symx.load_algopy()
     X = V(ctx, 'A', (D, P, n, n))
@@ -282,6 +331,12 @@ def units(tier, seed):
     for what in ('solve(A, int B)', 'solve(int A, B)', 'dot(A, int)', 'dot(int, A)'):
         add('integer constant/%s/D3,P2' % what, 'h_int_constant', what=what, D=3, P=2)
     add('solve/3x3,k1/UU/D3,P1', 'h_solve', n=3, k=1, kinds='UU', D=3, P=1)
+    # complex operands (documented: complex_differentiation.rst) in every operand-kind combination
+    for kinds in ('CC', 'CN', 'CK', 'NC', 'UK', 'KU', 'CU', 'UC'):
+        add('solve/2x2,k1/%s (complex)/D3,P2' % kinds, 'h_solve', n=2, k=1, kinds=kinds, D=3, P=2)
+    for kinds in ('CC', 'CU', 'UC', 'CK', 'KC', 'UK', 'KU'):
+        add('dot/(2, 2).(2, 2)/%s (complex)/D3,P2' % kinds, 'h_dot', fn='dot', lshape=(2, 2), rshape=(2, 2), kinds=kinds, D=3, P=2)
+        add('outer/(2,)x(3,)/%s (complex)/D3,P2' % kinds, 'h_dot', fn='outer', lshape=(2,), rshape=(3,), kinds=kinds, D=3, P=2)
     add('solve/2x2,k1/UU/out= reused workspace/D4,P2', 'h_solve', o={'dirty_out': True}, n=2, k=1, kinds='UU', D=4, P=2)
     add('solve/2x2,k2/UU/out= reused workspace/D3,P1', 'h_solve', o={'dirty_out': True}, n=2, k=2, kinds='UU', D=3, P=1)
     add('solve/3x3,k1/NU/D2,P2', 'h_solve', n=3, k=1, kinds='NU', D=2, P=2)
@@ -291,6 +346,8 @@ def units(tier, seed):
         add('%s/2x2/D5,P1' % fn, 'h_det', n=2, D=5, P=1, fn=fn)
         add('%s/3x3/D%d,P1' % (fn, 3 if tier != 'quick' else 2), 'h_det', n=3, D=3 if tier != 'quick' else 2, P=1, fn=fn)
     add('det/1x1/D3,P2', 'h_det', n=1, D=3, P=2)
+    add('det/complex 2x2/D3,P2 (float-decided)', 'h_complex_lu', n=2, D=3, P=2)
+    add('det/complex 3x3/D3,P1 (float-decided)', 'h_complex_lu', n=3, D=3, P=1)
     for k in (520, -520):
         add('logdet/2x2 entries of magnitude 2**%d/D3,P1' % k, 'h_det', o={'exact_eval': True}, n=2, D=3, P=1, fn='logdet', scale=k)
     add('expm/2x2/D2,P1', 'h_expm', o={'unit_timeout': 600}, n=2, D=2, P=1)
